@@ -150,7 +150,7 @@ pub open spec fn gcd_nat(a: nat, b: nat) -> nat decreases b { if b == 0 { a } el
 pub open spec fn gcd_spec(a: int, b: int) -> int { gcd_nat(abs_int(a) as nat, abs_int(b) as nat) as int }
 #[verifier::external_body]
 pub proof fn axiom_gcd_int_is_euclid(a: int, b: int) ensures gcd_int(a, b) == gcd_spec(a, b) { }
-// src/machine/arithmetic_ops.rs isize_gcd (binary GCD): contract discharged in unit `gcd` (see evidence)
+// src/machine/arithmetic_ops.rs isize_gcd (binary GCD): this contract is PROVED in unit `gcd` (same check, C01)
 #[verifier::external_body]
 pub fn isize_gcd(n1: isize, n2: isize) -> (r: Option<isize>)
     ensures r matches Some(g) ==> g == gcd_spec(n1 as int, n2 as int)
